@@ -80,6 +80,14 @@ def find_get(t, d):
     return None
 
 
+def listalg_seq_empty(t):
+    from nx import listalg
+    try:
+        return listalg.seq(t) == []
+    except Exception:
+        return False
+
+
 def records_and_payloads(chk, prog):
     """the container obligations other properties rest on (C01: no radial is lost between the file bytes and the decoded
     messages): records tile the bytes after the header, compressed() / decompress() / messages() / data() are as specified"""
@@ -257,6 +265,7 @@ def tiling(chk, prog):
     lp = ls[0]
     w = lp["where"]
     data = P(fn.local_name(1) or "data")
+    common.pre_loop_returns(chk, "R-LIN", SPLIT, prog, fn, lp["head"], empty_of=data, empty_ok=lambda l_: listalg_seq_empty(l_), what="the splitting loop")
     role = {}
     for l in lp["tracked"]:
         ty = fn.local_ty(l)
